@@ -176,11 +176,18 @@ def _placement_case(arg):
             ok, err = do_backup(src, dest, at_gap, same_second=same_second)
             if not ok:
                 return {'completed': False, 'viol': [], 'err': err}
+            # the backup just taken is the one the 'last-backup' symlink points to (folder names carry a one-second timestamp
+            # plus a random suffix, so their sort order does not identify it when two backups fall into the same second)
+            newest = os.readlink(os.path.join(dest, 'last-backup'))
             folders = sorted(p for p in os.listdir(dest) if p.startswith('backup_'))
-            viol = check_backup(os.path.join(dest, folders[-1]), must)
+            viol = check_backup(os.path.join(dest, newest), must)
             if rnd == 2 and not viol:
                 # the first backup must still be intact (hard links must not have been written through)
-                viol = [('first-' + c_, d_) for c_, d_ in check_backup(os.path.join(dest, folders[0]), {H(x) for x in (L1, L2, P1, Z)})]
+                first = [p for p in folders if p != newest]
+                if len(first) != 1:
+                    viol = [('backup-folders', f'expected two backup folders, found {folders}')]
+                else:
+                    viol = [('first-' + c_, d_) for c_, d_ in check_backup(os.path.join(dest, first[0]), {H(x) for x in (L1, L2, P1, Z)})]
             return {'completed': True, 'viol': viol[:3], 'err': ''}
         finally:
             reader.close()
@@ -243,8 +250,7 @@ class BackupHarness(Harness):
         ctx.outcome = 'completed' if ok else 'failed'
         if not ok:
             return []
-        folders = sorted(p for p in os.listdir(ctx.dest) if p.startswith('backup_'))
-        return check_backup(os.path.join(ctx.dest, folders[-1]), ctx.must)
+        return check_backup(os.path.join(ctx.dest, os.readlink(os.path.join(ctx.dest, 'last-backup'))), ctx.must)
 
 
 def run(tier, report):
